@@ -60,7 +60,7 @@ def render(sc, vtool, log, extra=None):
         cmd += " --outs " + " ".join(all_outs(st))
         cmd += st.get("shell_suffix", "")          # e.g. "; kill -KILL $$$$": the spawned shell itself dies by a signal
         L.append("rule r_%s" % st["id"])
-        L.append("  command = %s" % cmd)
+        L.append("  command = %s%s" % (st.get("shell_prefix", ""), cmd))      # e.g. "exec ": the tool takes the shell's place
         if st.get("description"):
             L.append("  description = %s" % st["description"])
         if st["restat"]:
@@ -490,7 +490,7 @@ def c06_simultaneous_case(ctx, seed, attempt=0):
     failure that ends the build, ninja must still terminate and return every token."""
     from .simlib import St
     rng = random.Random(seed)
-    variant = rng.choice(("idle", "idle", "terminate"))
+    variant = rng.choice(("idle", "idle", "terminate", "abort", "abort"))
     sc = {"id": "C06s-%d" % seed, "sources": {}, "stmts": [], "pools": {}, "defaults": []}
     names = ["a", "b", "c", "d"]
     for nm in names:
@@ -507,6 +507,19 @@ def c06_simultaneous_case(ctx, seed, attempt=0):
         # one more ready command that can never get a token keeps ninja watching the jobserver
         sc["sources"]["e.c"] = "// e\n"
         sc["stmts"].append(St("e", ["o/e.o"], ins=["e.c"]))
+    first = ["a", "b"]
+    ntok = 1
+    if variant == "abort":
+        # three commands hold the implicit slot and two tokens; all three end while ninja is stopped, and one of them ended
+        # with an interrupt status (its tool was hit by SIGTERM/SIGINT/SIGHUP): ninja abandons the build - and still has to
+        # give back the tokens of the commands that had finished but were not looked at yet
+        first = ["a", "b", "c"]
+        ntok = 2
+        sc["stmts"] = [s_ for s_ in sc["stmts"] if s_["id"] in first]
+        for s_ in sc["stmts"]:
+            s_["vtool_args"] = ["--wait-for", "gate"]
+        failing = rng.choice(["a", "a", "b", "c"])      # (the earlier it is looked at, the more finished commands wait behind it)
+        next(s_ for s_ in sc["stmts"] if s_["id"] == failing)["vtool_args"] += ["--kill-self", str(rng.choice((15, 2, 1)))]
     t = Tree(sc)
     rep = {"seed": seed, "variant": variant}
     what = "e2e simultaneous-completion scenario %d (%s)" % (seed, variant)
@@ -517,12 +530,12 @@ def c06_simultaneous_case(ctx, seed, attempt=0):
         rep["manifest"] = open(t.path("build.ninja")).read()
         os.mkfifo(fifo)
         fd = os.open(fifo, os.O_RDWR | os.O_NONBLOCK)
-        os.write(fd, b"+")
-        env = {"MAKEFLAGS": " -j2 --jobserver-auth=fifo:%s" % fifo}
+        os.write(fd, b"+" * ntok)
+        env = {"MAKEFLAGS": " -j%d --jobserver-auth=fifo:%s" % (ntok + 1, fifo)}
         p = t.popen(["-k", "1"], env=env)
         # wait until a and b run
         for _ in range(3000):
-            if {e["id"] for e in t.events() if e["e"] == "S"} >= {"o/a.o", "o/b.o"}:
+            if {e["id"] for e in t.events() if e["e"] == "S"} >= {"o/%s.o" % x for x in first}:
                 break
             if p.poll() is not None:
                 break
@@ -537,7 +550,7 @@ def c06_simultaneous_case(ctx, seed, attempt=0):
         t.write("gate", "open\n")
         for _ in range(3000):       # both commands finish while ninja is stopped
             ended = {e["id"] for e in t.events() if e["e"] in ("E", "K")}
-            if ended >= {"o/a.o", "o/b.o"}:
+            if ended >= {"o/%s.o" % x for x in first}:
                 break
             time.sleep(0.005)
         time.sleep(0.2)
@@ -577,6 +590,10 @@ def c06_simultaneous_case(ctx, seed, attempt=0):
                               "%s: %s started %.2f s after %s, only when %s had ended: a slot idled behind a finished command" %
                               (what, second, st_[second] - st_[first], first, first), rep)
                 return
+        elif variant == "abort":
+            if rc == 0:
+                ctx.violation("C06/e2e-simultaneous-completion/exit-zero", "%s: exit 0 although the tool of %s was killed" % (what, failing), rep)
+                return
         else:
             if rc == 0:
                 ctx.violation("C06/e2e-simultaneous-completion/exit-zero", "%s: exit 0 although %s failed" % (what, failing), rep)
@@ -591,8 +608,9 @@ def c06_simultaneous_case(ctx, seed, attempt=0):
                 got += len(b_)
         except OSError:
             pass
-        if got != 1:
-            ctx.violation("C06/e2e-fifo-tokens/simultaneous-completion", "%s: the FIFO held 1 token before and %d after ninja exited (rc %s)" % (what, got, rc), rep)
+        if got != ntok:
+            ctx.violation("C06/e2e-fifo-tokens/simultaneous-completion" + ("/abandoned-build" if variant == "abort" else ""),
+                          "%s: the FIFO held %d token(s) before and %d after ninja exited (rc %s)" % (what, ntok, got, rc), rep)
             return
     finally:
         if p is not None and p.poll() is None:
@@ -610,7 +628,7 @@ def c06_scenarios(ctx):
     seeds = [rng.randint(1, 10 ** 9) for _ in range(48 if ctx.tier == "quick" else 1200)]
     from .checks.c07 import safe
     parallel(lambda s: safe(ctx, c06_case, ctx, s), seeds, workers=8)
-    seeds2 = [rng.randint(1, 10 ** 9) for _ in range(12 if ctx.tier == "quick" else 300)]
+    seeds2 = [rng.randint(1, 10 ** 9) for _ in range(24 if ctx.tier == "quick" else 500)]
     parallel(lambda s: safe(ctx, c06_simultaneous_case, ctx, s), seeds2, workers=6)
 
 
@@ -777,6 +795,99 @@ def c08_scenarios(ctx):
     seeds = [rng.randint(1, 10 ** 9) for _ in range(16 if ctx.tier == "quick" else 300)]
     from .checks.c07 import safe
     parallel(lambda s: safe(ctx, c08_case, ctx, s), seeds)
+
+
+# ------------------------------------------------------------------------------------------ C02/C03: recompaction on the real binary
+def recompaction_case(ctx, seed, prop):
+    """NinjaMain::IsPathDead (which decides what a recompaction of the build log keeps) lives in ninja.cc, which the simulator
+    cannot link.  So on the real binary: a project with dyndep-provided outputs (paths no manifest line mentions) is built,
+    its logs are made as long as repeated rebuilds make them, and the next invocation - which recompacts while it opens the
+    logs, before any dyndep file is read - must find nothing to do; after one source change it rebuilds what a clean build
+    gives and then again finds nothing to do."""
+    rng = random.Random(seed)
+    g = gen.Gen(random.Random(rng.randint(0, 2 ** 60)), size=rng.randint(3, 6),
+                feat=dict(dyndep=1.0, deps=0.5, restat=0.2, phony=0.15, generator=0.0, pools=0.15, chain=0.6, early=0.0, console=0.0))
+    sc = g.scenario("%sr-%d" % (prop, seed))
+    if not any(s.get("dd") for s in sc["stmts"]):
+        sc = g.add_dyndep(sc) or sc
+    sc["defaults"] = []
+    t = Tree(sc)
+    rep = {"seed": seed}
+    what = "recompaction scenario %d" % seed
+    try:
+        rep["manifest"] = open(t.path("build.ninja")).read()
+        rc, so, se = t.run(["-j4"])
+        if rc != 0:
+            ctx.inconclusive += 1
+            return
+        t.events(clear=True)
+        rc, so, se = t.run(["-j4"])
+        if rc != 0 or [e for e in t.events() if e["e"] == "S"]:
+            # (what a second build does without any recompaction is the simulator families' business)
+            ctx.count("e2e_recompaction_baseline_not_quiet")
+            return
+        for rnd in range(2):
+            lp = t.path(".ninja_log")
+            data = open(lp, "rb").read()
+            body = b"".join(data.split(b"\n", 1)[1:])
+            nrec = body.count(b"\n")
+            if nrec == 0:
+                ctx.inconclusive += 1
+                return
+            reps = max(4, 110 // nrec + 1)
+            with open(lp, "ab") as f:
+                for _ in range(reps):
+                    f.write(body)
+            size_before = os.path.getsize(lp)
+            t.events(clear=True)
+            rc, so, se = t.run(["-j4", "-d", "explain"])
+            ctx.evaluations += 1
+            sig = util.san_signature((so + se).decode("latin-1"))
+            if sig:
+                ctx.violation(prop + "/e2e-sanitizer/" + sig, "%s: %s" % (what, (so + se).decode("latin-1")[-1200:]), rep)
+                return
+            compacted = os.path.getsize(lp) < size_before
+            ran = sorted({e["id"] for e in t.events() if e["e"] == "S"})
+            if compacted:
+                ctx.count("e2e_recompactions_observed")
+                ctx.nontrivial((prop, "recompaction", seed, rnd))
+            if rc != 0 or ran:
+                ctx.violation(prop + "/e2e-work-after-recompaction" + ("" if compacted else "/log-only-grew"),
+                              "%s: nothing changed since the last successful build (only the build log grew to %d records for %d outputs%s), yet ninja "
+                              "ran %s (exit %s): %s" % (what, nrec * (reps + 1), nrec, ", and was recompacted at start-up" if compacted else "", ran, rc,
+                                                         (so + se).decode("latin-1")[-500:]), rep)
+                return
+            if rnd == 1:
+                break
+            # one change, then the same again
+            srcs = sorted(p_ for p_ in sc["sources"] if not p_.endswith(".dd"))
+            p_ = rng.choice(srcs)
+            sc["sources"][p_] += "// e%d\n" % rng.randint(0, 999999)
+            t.write(p_, sc["sources"][p_])
+            rc, so, se = t.run(["-j4"])
+            if rc != 0:
+                ctx.inconclusive += 1
+                return
+            bad = compare_with_clean(sc, t)
+            if bad:
+                o, got, want = bad[0]
+                ctx.violation(prop + "/e2e-stale-after-recompaction", "%s: after editing %s and a successful build %s is %r, a clean build gives %r" %
+                              (what, p_, o, got, want), rep)
+                return
+            t.events(clear=True)
+            rc, so, se = t.run(["-j4"])
+            if rc != 0 or [e for e in t.events() if e["e"] == "S"]:
+                ctx.count("e2e_recompaction_baseline_not_quiet")
+                return
+    finally:
+        t.close()
+
+
+def recompaction_scenarios(ctx, prop, n):
+    rng = random.Random(ctx.seed * 131 + 77 + int(prop[1:]))
+    seeds = [rng.randint(1, 10 ** 9) for _ in range(n)]
+    from .checks.c07 import safe
+    parallel(lambda sd: safe(ctx, recompaction_case, ctx, sd, prop), seeds)
 
 
 # ------------------------------------------------------------------------------------------ C16: response files on the real disk
@@ -1104,6 +1215,180 @@ def c14_entry_case(ctx, seed):
                           (seed, mode, la, rca, list(rana), rcb, list(ranb), errb), rep)
             return
     ctx.count("entry_point_steps_equal", len(a))
+
+
+def c14_distinct_case(ctx, seed):
+    """The other half of the property at the entry points: two names that differ in anything but '.', empty and resolvable
+    '..' components - letter case, one more dot inside a component, a component that merely starts with dots - are two files.
+    A source reads both; they are reported to ninja (depfile, deps = gcc, deps = msvc, or declared in the manifest) under
+    respelled names.  Editing either one must rebuild the output."""
+    rng = random.Random(seed)
+    mode = rng.choice(("depfile", "gcc", "msvc", "msvc", "manifest"))
+    A, B = rng.choice((("inc/Types.h", "inc/types.h"), ("inc/a.h", "inc/A.h"), ("x/y.h", "x/y.H"), ("Inc/v.h", "inc/v.h"),
+                       ("inc/v.h", "inc/v..h"), ("inc/w.h", "inc/..w.h"), ("inc/u.h", "inc/u.h."), ("a/b/c.h", "a/B/c.h")))
+    if rng.random() < 0.5:
+        A, B = B, A
+    rA, rB = (_respell(rng, A), _respell(rng, B)) if rng.random() < 0.8 else (A, B)
+    if mode == "msvc":
+        report = "printf 'Note: including file: %s\\nNote: including file: %s\\n' '%s' '%s'" % ("%s", "%s", rA, rB)
+    else:
+        report = "printf '%%s\\n' 'o/x.o: s/a.c %s %s' > o/x.o.d" % (rA, rB)
+    L = ["rule cc", "  command = cat s/a.c %s %s > o/x.o && %s" % (A, B, report if mode != "manifest" else "true"), "  description = CC"]
+    if mode in ("depfile", "gcc"):
+        L.append("  depfile = o/x.o.d")
+    if mode in ("gcc", "msvc"):
+        L.append("  deps = " + mode)
+    L.append("build o/x.o: cc s/a.c" + (" | %s %s" % (rA, rB) if mode == "manifest" else ""))
+    text = "\n".join(L) + "\n"
+    rep = {"seed": seed, "mode": mode, "manifest": text, "pair": [A, B]}
+    kind = "case" if A.lower() == B.lower() else "dots"
+    t = Tree()
+    try:
+        t.write("s/a.c", "// src\n")
+        t.write(A, "// A 0\n")
+        t.write(B, "// B 0\n")
+        t.write("build.ninja", text)
+        os.makedirs(t.path("o"), exist_ok=True)
+
+        def build():
+            rc, so, se = t.run([])
+            txt = (so + se).decode("latin-1")
+            return rc, "] CC" in txt, "no work to do" in txt, util.san_signature(txt), txt
+        ctx.evaluations += 1
+        rc, ran, nw, sig, txt = build()
+        if sig:
+            ctx.violation("C14/entry-points/sanitizer/" + sig, "distinct-names scenario %d: %s" % (seed, txt[-800:]), rep)
+            return
+        if rc != 0 or not ran:
+            ctx.inconclusive += 1
+            ctx.count("distinct_setup_failed")
+            return
+        rc, ran, nw, sig, txt = build()
+        if rc != 0 or ran:
+            ctx.violation("C14/distinct-names/%s/%s/not-quiet" % (mode, kind), "scenario %d (%s, %s): the second build runs the command again: %s" % (seed, A, B, txt[-300:]), rep)
+            return
+        for which, path in rng.sample((("first", A), ("second", B)), 2):
+            t.write(path, "// %s edited %d\n" % (path, rng.randint(0, 999999)))
+            rc, ran, nw, sig, txt = build()
+            want = b"".join(t.read(x) for x in ("s/a.c", A, B))
+            ctx.count("distinct_name_edits_checked")
+            if rc != 0 or not ran or t.read("o/x.o") != want:
+                ctx.violation("C14/distinct-names-merged/%s/%s" % (mode, kind),
+                              "scenario %d: the command reads %s and %s (reported as %s and %s through %s); after editing %s ninja says %r and the "
+                              "output is %s" % (seed, A, B, rA, rB, mode, path, txt[-120:], "stale" if t.read("o/x.o") != want else "fresh"), rep)
+                return
+            rc, ran, nw, sig, txt = build()
+            if rc != 0 or ran:
+                ctx.violation("C14/distinct-names/%s/%s/not-quiet" % (mode, kind), "scenario %d: rebuilds again after the edit of %s was built: %s" % (seed, path, txt[-300:]), rep)
+                return
+        ctx.nontrivial(("distinct", mode, A, B, rA, rB))
+        ctx.count("distinct_name_scenarios_%s" % mode)
+    finally:
+        t.close()
+
+
+def c18_links_case(ctx, seed):
+    """`-t clean` on the real file system with outputs in states the virtual disk cannot hold: an output that is a symbolic
+    link - to nothing (its target was cleaned or never made), to a source file, to another output.  The link itself is the
+    file in scope: it is removed (reported with -n), what it points to is not touched."""
+    from .checks import c18 as C18
+    rng = random.Random(seed)
+    g = gen.Gen(random.Random(rng.randint(0, 2 ** 60)), size=rng.randint(3, 7),
+                feat=dict(dyndep=0.0, deps=0.5, rsp=0.2, generator=0.1, phony=0.15, pools=0.0, restat=0.1, vals=0.1, chain=0.7, early=0.0, console=0.0))
+    sc = g.scenario("C18l-%d" % seed)
+    sc["defaults"] = []
+    t = Tree(sc)
+    rep = {"seed": seed}
+    what = "e2e clean scenario %d" % seed
+    try:
+        rep["manifest"] = open(t.path("build.ninja")).read()
+        rc, so, se = t.run(["-j4"])
+        if rc != 0:
+            ctx.inconclusive += 1
+            return
+        cmds = [s_ for s_ in sc["stmts"] if s_["kind"] == "cmd"]
+        outs = [o for s_ in cmds for o in all_outs(s_)]
+        srcs = sorted(sc["sources"])
+        links = {}
+        for o in rng.sample(outs, rng.randint(1, min(3, len(outs)))):
+            kind = rng.choice(("dangling", "dangling", "to-source", "to-output"))
+            target = {"dangling": "nowhere/gone.so.1", "to-source": rng.choice(srcs), "to-output": rng.choice(outs)}[kind]
+            if target == o:
+                kind, target = "dangling", "gone"
+            rel = os.path.relpath(t.path(target), os.path.dirname(t.path(o)))
+            os.unlink(t.path(o))
+            os.symlink(rel, t.path(o))
+            links[o] = (kind, target)
+        rep["links"] = links
+        mode = rng.choice(("all", "all", "targets", "rules"))
+        generator = rng.random() < 0.3
+        dry = rng.random() < 0.25
+        args = []
+        if mode == "targets":
+            args = rng.sample(outs, rng.randint(1, min(2, len(outs))))
+        elif mode == "rules":
+            args = ["r_" + s_["id"] for s_ in rng.sample(cmds, rng.randint(1, min(2, len(cmds))))]
+        if mode != "all" and generator:
+            generator = False         # (-g with targets/rules: see the known finding; not mixed in here)
+        sources = {p_: sc["sources"][p_] for p_ in sc["sources"]}
+        allowed, required = C18.scope(sc, sources, mode, args, generator, [], ())
+
+        def lsnap():
+            r = {}
+            for root, dirs, files in os.walk(t.d):
+                for f in files + [d_ for d_ in dirs if os.path.islink(os.path.join(root, d_))]:
+                    fp = os.path.join(root, f)
+                    rel = os.path.relpath(fp, t.d)
+                    if rel in (".vtool.log", ".probe") or os.path.basename(rel) in (".ninja_log", ".ninja_deps", ".ninja_lock"):
+                        continue
+                    r[rel] = ("link", os.readlink(fp)) if os.path.islink(fp) else ("file", open(fp, "rb").read())
+            return r
+        before = lsnap()
+        cli = (["-n"] if dry else []) + ["-t", "clean"] + (["-g"] if generator else []) + (["-r"] if mode == "rules" else []) + args
+        rc, so, se = t.run(cli)
+        txt = (so + se).decode("latin-1")
+        ctx.evaluations += 1
+        ctx.count("e2e_clean_links_%s%s" % (mode, "_dry" if dry else ""))
+        sig = util.san_signature(txt)
+        if sig:
+            ctx.violation("C18/e2e-sanitizer/" + sig, "%s: %s" % (what, txt[-1200:]), rep)
+            return
+        after = lsnap()
+        rep["cli"] = cli
+        gone = sorted(p_ for p_ in before if p_ not in after)
+        changed = sorted(p_ for p_ in before if p_ in after and after[p_] != before[p_])
+        ctx.nontrivial(("e2e-links", seed))
+        if changed:
+            ctx.violation("C18/e2e-clean-modified-file", "%s (%s): %s changed" % (what, " ".join(cli), changed), rep)
+            return
+        if dry:
+            if gone:
+                ctx.violation("C18/e2e-dry-run-removed", "%s (%s): removed %s" % (what, " ".join(cli), gone), rep)
+            return
+        bad = [p_ for p_ in gone if p_ not in allowed]
+        if bad:
+            ctx.violation("C18/e2e-clean-out-of-scope/%s" % mode, "%s (%s): removed %s, which is not in scope" % (what, " ".join(cli), bad), rep)
+            return
+        left = sorted(p_ for p_ in required if p_ in before and p_ in after)
+        if left:
+            lk = [p_ for p_ in left if p_ in links]
+            ctx.violation("C18/e2e-clean-not-removed/%s%s" % (mode, "/symlink-" + links[lk[0]][0] if lk else ""),
+                          "%s (%s): still there: %s%s" % (what, " ".join(cli), left, " (a symbolic link: %s)" % (links[lk[0]],) if lk else ""), rep)
+            return
+        ctx.count("e2e_clean_link_outputs_removed", len([p_ for p_ in links if p_ in gone]))
+        if any(p_ not in gone for p_ in links):
+            return        # (a link that was out of scope is still there: a rebuild would write through it)
+        # a following build re-creates what was removed
+        rc, so, se = t.run(["-j4"])
+        if rc != 0:
+            ctx.violation("C18/e2e-rebuild-after-clean-failed", "%s (%s): %s" % (what, " ".join(cli), (so + se).decode("latin-1")[-400:]), rep)
+            return
+        bad = compare_with_clean(sc, t)
+        if bad and bad[0][0] not in links:
+            o, got, want = bad[0]
+            ctx.violation("C18/e2e-rebuild-after-clean-differs", "%s (%s): %s is %r, clean build %r" % (what, " ".join(cli), o, got, want), rep)
+    finally:
+        t.close()
 
 
 # ------------------------------------------------------------------------------------------ C18: cleandead on a long build log
